@@ -19,7 +19,7 @@ def _events(tier, count):
 def subharnesses(tier):
     subs = []
     worlds = [('T1', 1, 3), ('T2', 1, 3)] if tier == 'quick' else \
-        [('T1', 1, 3), ('T2', 1, 3), ('T1', 2, 3), ('T1', 1, 4)]
+        [('T1', 1, 3), ('T2', 1, 3), ('T1', 2, 3)]
     for topo, D, A in worlds:
         for count in (1, 2):
             for pl in g1.placements(A, 2):
